@@ -65,6 +65,11 @@ SHAPES = [
     # what follows the repetition starts like its element: {nops} on x_0: x_1 decides
     ("S: x* x;", "S: x_0 x;\nx_0: x_1 {nops} | EMPTY;\n@collect\nx_1: x_1 x | x;"),
     ("S: A* B;\nA: x y;\nB: x | z;", "S: A_0 B;\nA_0: A_1 {nops} | EMPTY;\n@collect\nA_1: A_1 A | A;\nA: x y;\nB: x | z;"),
+    # a group around a single reference that carries its own operator, with an operator on the group
+    ("S: y (x+)? z;", "S: y S_g1_opt z;\n@optional\nS_g1_opt: S_g1 | EMPTY;\nS_g1: x_1;\n@collect\nx_1: x_1 x | x;"),
+    ("S: (x+[c])+ z;", "S: S_g1_1 z;\n@collect\nS_g1_1: S_g1_1 S_g1 | S_g1;\nS_g1: x_1_c;\n@collect_sep\nx_1_c: x_1_c c x | x;"),
+    ("S: ((x y)+)? z;", "S: S_g1_opt z;\n@optional\nS_g1_opt: S_g1 | EMPTY;\nS_g1: S_g2_1;\n@collect\nS_g2_1: S_g2_1 S_g2 | S_g2;\nS_g2: x y;"),
+    ("S: y (x?)+ z;", "S: y S_g1_1 z;\n@collect\nS_g1_1: S_g1_1 S_g1 | S_g1;\nS_g1: x_opt;\n@optional\nx_opt: x | EMPTY;"),
     ("S: A? B?;\nA: x+;\nB: y | x c;", "S: A_opt B_opt;\n@optional\nA_opt: A | EMPTY;\n@optional\nB_opt: B | EMPTY;\nA: x_1;\n@collect\nx_1: x_1 x | x;\nB: y | x c;"),
 ]
 
